@@ -245,7 +245,9 @@ def main():
             elif r < 0.4:
                 import yaml
                 lst = [p for p in (gen_pattern(rng, names) for _ in range(rng.randint(0, 3)))]
-                path = os.path.join(tmp, 'f%d.yaml' % i)
+                # the same few paths are rewritten again and again: the allow-list in force is what the file says NOW,
+                # not what it said the first time this process read it
+                path = os.path.join(tmp, 'f%d.yaml' % (i % 3))
                 doc = {'safe_metrics': lst} if rng.random() < 0.85 else {'other': 1}
                 with open(path, 'w') as f:
                     yaml.safe_dump(doc, f)
@@ -262,6 +264,9 @@ def main():
             os.environ.pop('OF_SAFE_METRICS', None)
             case = dict(env=env, file=file_model, metrics=metrics)
             oracle(run, sorted(allow), metrics, facet, case)
+            # ... and judged against the configuration as it stands now (file and environment), whatever the reader returned
+            now = (file_model if isinstance(file_model, list) else []) + [x.strip() for x in (env or '').split(',') if x.strip()]
+            oracle(run, sorted(set(now)), metrics, facet, dict(case, configured_now=sorted(set(now)), reader_returned=sorted(allow)))
             if file_model is None and (env is None or not env.strip(' ,\t\n ')) and facet:
                 run.violation('empty-allowlist-exports (deployed) env=%r' % env,
                               'no allow-list configured but metrics %r were exported' % list(facet), case)
